@@ -37,7 +37,9 @@ Init ==
 Next ==
   /\ phase = 0 /\ phase' = 1
   /\ cuts' \in SUBSET (1..(Len(bs) - 1))
-  /\ sw' \in {0} \cup (IF Len(bs) >= 2 THEN {2} ELSE {})       \* optional switch to 8-bit mode before the 2nd chunk
+  \* mode switches between chunks: 2 = to 8-bit mode before the 2nd chunk; 3 = additionally back to
+  \* UTF-8 before the 3rd chunk (a tail pending at the first switch must not survive the round trip)
+  /\ sw' \in {0} \cup (IF Len(bs) >= 2 THEN {2} ELSE {}) \cup (IF Len(bs) >= 3 THEN {3} ELSE {})
   /\ UNCHANGED bs
 Spec == Init /\ [][Next]_vars
 
@@ -45,6 +47,6 @@ StreamingEqualsWhole == phase = 1 => Streamed(Chunks(bs, cuts)) = DecodeWhole(bs
 \* every byte is accounted for: each output character stands for 1..4 input bytes, in order
 NothingLost == phase = 1 => (Len(DecodeWhole(bs)) <= Len(bs) /\ Len(bs) <= 4 * Len(DecodeWhole(bs)))
 \* well-formed input decodes without replacement characters and re-encodes to itself in length
-Emit == (phase = 1 /\ EmitVectors /\ (sw = 0 \/ Len(Chunks(bs, cuts)) >= 2)) =>
+Emit == (phase = 1 /\ EmitVectors /\ (sw = 0 \/ Len(Chunks(bs, cuts)) >= sw)) =>
           PrintT(<<"VEC", ToJson([chunks |-> Chunks(bs, cuts), sw |-> sw])>>)
 =============================================================================
